@@ -139,6 +139,8 @@ func scriptFC(in *In, chunks [][]byte, probe *bool, stop bool, nerr *int, hook f
 				w.Header().Add(o.K, o.V)
 			case "del":
 				w.Header().Del(o.K)
+			case "nil":
+				w.Header()[http.CanonicalHeaderKey(o.K)] = nil
 			case "wh":
 				w.WriteHeader(o.Code)
 			case "fl":
